@@ -34,6 +34,8 @@ pub struct RunReport {
     pub ops: u64,
     pub relaxed: u64,
     pub outcome_cats: BTreeMap<String, u64>,
+    /// executed operations per kind
+    pub op_kinds: BTreeMap<String, u64>,
     /// simulated clock time covered by this run's scripted readings (ns)
     pub sim_time_ns: u128,
     /// lowest / highest scripted clock reading handed out in this run
@@ -228,6 +230,7 @@ pub fn run_c20(plan: &Plan, keep_trace: bool) -> RunReport {
         for (i, op) in ops_.iter().enumerate() {
             let Some(got) = outcomes[t].get(i) else { continue };
             r.ops += 1;
+            *r.op_kinds.entry(op.kind.clone()).or_insert(0) += 1;
             record_fault(&mut r, op, got);
             any_fault |= got.fault_fired || op.kind == ops::INJECT_PANIC;
             let reference = solo_wrapper(op).outcome;
@@ -288,6 +291,7 @@ pub fn run_c03(plan: &Plan, keep_trace: bool) -> RunReport {
         for (i, op) in ops_.iter().enumerate() {
             let Some(got) = outcomes[t].get(i) else { continue };
             r.ops += 1;
+            *r.op_kinds.entry(op.kind.clone()).or_insert(0) += 1;
             record_fault(&mut r, op, got);
             if op.fail_at > 0 && got.fault_fired {
                 *r.fired.entry(format!("F10-provider-call-fails/{}", op.family())).or_insert(0) += 1;
@@ -365,6 +369,7 @@ pub fn run_c15(plan: &Plan) -> RunReport {
             continue;
         }
         r.ops += 1;
+        *r.op_kinds.entry(op.kind.clone()).or_insert(0) += 1;
         let got = exec(op, Mode::Twin(&long_lived), true);
         let reference = exec(op, Mode::Twin(&fresh()), false).outcome;
         record_fault(&mut r, op, &got);
@@ -426,6 +431,7 @@ pub fn run_c19(plan: &Plan) -> RunReport {
             continue;
         }
         r.ops += 1;
+        *r.op_kinds.entry(op.kind.clone()).or_insert(0) += 1;
         let got = exec::<FsTzdbProvider>(op, Mode::Wrapper, false);
         let twin = exec(op, Mode::Twin(&fresh()), false).outcome;
         record_fault(&mut r, op, &got);
